@@ -135,6 +135,8 @@ def run_property(pid: str, tier: str, seed: int) -> int:
     }
     if chk is not None:
         cov["coqchk_context_summary"] = chk
+    if F.TRANSIENT:   # coqc / make runs killed from outside (no Coq error message) and repeated
+        cov["retried_after_external_kill"] = F.TRANSIENT[:50]
     for k, v in res.items():
         if k not in cov and k not in ("mismatches", "oracle_failures"):
             cov[k] = v
